@@ -316,6 +316,10 @@ def suspendTask (p : Pool) (t : Nat) (ph : Phase) : Pool :=
 
 def reqOf (p : Pool) (tk : PTask) : Req := p.reqs[tk.req]?.getD default
 
+/-- ghost: one more entry into the end / the cancel callback -/
+def cbCount (isEnd : Bool) (k : PTask) : PTask :=
+  if isEnd then { k with nEC := k.nEC + 1 } else { k with nCC := k.nCC + 1 }
+
 /-- entering a user callback: the log entry (with the counters and the registry that files the task at that very
 moment) and the callback's own user code -/
 def cbBegin (p : Pool) (t : Nat) (tk : PTask) (isEnd : Bool) : Pool :=
@@ -323,15 +327,14 @@ def cbBegin (p : Pool) (t : Nat) (tk : PTask) (isEnd : Bool) : Pool :=
   let c := p.counters
   let k := p.lookupRunning (Int.ofNat t)
   let ev := if isEnd then Ev.endCb t c.1 c.2.1 c.2.2 k else Ev.cancelCb t c.1 c.2.1 c.2.2 k
-  (p.logEv ev).runHooks tk.req (if isEnd then r.hooks.endCb else r.hooks.cancelCb)
+  ((p.modTask t (cbCount isEnd)).logEv ev).runHooks tk.req (if isEnd then r.hooks.endCb else r.hooks.cancelCb)
 
 def evCbDone (t : Nat) (isEnd : Bool) : Ev := if isEnd then .endCbDone t else .cancelCbDone t
 def evCbRaised (t : Nat) (isEnd : Bool) : Ev := if isEnd then .endCbRaised t else .cancelCbRaised t
 
 /-- run a user callback; `true` = the wrapper is now suspended inside a coroutine callback -/
 def runCb (p : Pool) (t : Nat) (tk : PTask) (isEnd : Bool) : Pool Ã— Bool :=
-  let r := p.reqOf tk
-  match (if isEnd then r.endCb else r.cancelCb) with
+  match (if isEnd then tk.endCb else tk.cancelCb) with
   | .none => (p, false)
   | .plain => ((p.cbBegin t tk isEnd).logEv (evCbDone t isEnd), false)
   | .raises x => (((p.cbBegin t tk isEnd).logEv (evCbRaised t isEnd)).modTask t fun k => { k with pendingExc := some x }, false)
@@ -378,7 +381,8 @@ def cancelCallback (p : Pool) (t : Nat) (tk : PTask) : Pool :=
 /-- `except CancelledError: await self._task_cancellation(...)`, then the `finally` -/
 def taskCancellation (p : Pool) (t : Nat) (tk : PTask) : Pool :=
   if p.running.contains t then
-    ({ p with running := p.running.erase t, cancelledR := p.cancelledR ++ [t] } : Pool).cancelCallback t tk
+    (({ p with running := p.running.erase t, cancelledR := p.cancelledR ++ [t] } : Pool).modTask t
+      fun k => { k with wasCancelled := true }).cancelCallback t tk
   else
     (({ p with lost := true } : Pool).modTask t fun k => { k with pendingExc := some .keyError }).taskEnding t
 
@@ -457,8 +461,8 @@ def addToGroup : List (String Ã— List Nat) â†’ String â†’ Nat â†’ List (String Ã
   | [], g, id => [(g, [id])]
   | (n, ids) :: rest, g, id => if n = g then (n, ids ++ [id]) :: rest else (n, ids) :: addToGroup rest g id
 
-def newTask (m : Nat) (isMap : Bool) (arg : ArgD) : PTask :=
-  { req := m, arg := arg, phase := .created, released := false, isMap := isMap, mapHeld := isMap, fut := .pending,
+def newTask (m : Nat) (isMap : Bool) (arg : ArgD) (ecb ccb : CbSpec) : PTask :=
+  { req := m, arg := arg, endCb := ecb, cancelCb := ccb, nEC := 0, nCC := 0, wasCancelled := false, phase := .created, released := false, isMap := isMap, mapHeld := isMap, fut := .pending,
     mustCancel := false, sched := true, outcome := none, pendingExc := none, sawCancel := false,
     unstarted := true, cancelledEarly := false, doneCbs := [] }
 
@@ -468,7 +472,7 @@ def createTask (p : Pool) (m : Nat) (isMap : Bool) : Pool :=
   let r := p.reqs[m]?.getD default
   let g := r.group
   let arg := if isMap then ArgD.elem r.stars (r.pulled - 1) else ArgD.apply
-  let p : Pool := { p with tasks := p.tasks ++ [newTask m isMap arg], groups := addToGroup p.groups g id,
+  let p : Pool := { p with tasks := p.tasks ++ [newTask m isMap arg r.endCb r.cancelCb], groups := addToGroup p.groups g id,
                            running := p.running ++ [id] }
   (p.modReq m fun x => { x with created := x.created + 1 }).emitRef (.task id)
 
